@@ -305,6 +305,17 @@ func pairCases(g *Gen) []*Case {
 			cases = append(cases, buildCase(fmt.Sprintf("m%d", i), rec2, sentinelRefs(g), []int{0, 1, 2, 3}))
 			i++
 		}
+		// a multi-cause node that kept a single branch (Join(x, nil)) is still a node of the tree
+		for _, rec := range []*R{
+			g.MultiOp(m, []*R{g.LeafOp("new")}),
+			g.WrapOp("wrap", g.MultiOp(m, []*R{g.WrapOp("hint", g.LeafOp("goerr"), 2)}), 2),
+			g.MultiOp(m, []*R{g.MultiOp(m, []*R{g.LeafOp("goerr")}), g.LeafOp("new")}),
+		} {
+			refs := sentinelRefs(g)
+			refs = append(refs, g.Clone(rec), g.Perturb(rec))
+			cases = append(cases, buildCase(fmt.Sprintf("m%d", i), rec, refs, []int{0, 1, 2, 3}))
+			i++
+		}
 	}
 	return cases
 }
